@@ -1,5 +1,5 @@
 //@ create src/cli/tests/verif_argv.rs
-//@ native verif_oracle_cli_flows "bounded stand-in / witness finder (C01, C02, C05, C07, C08, C13, C16): the built kestrel binary on the shipped two-key keyring: encrypt for every (from, to) in {alice, bob}^2 (incl. to self) with a 10-byte and a 70000-byte input, file length = 132 + 32 per chunk + plaintext, decrypt as each key succeeds exactly for `to`, returns the input and names `from`, a failed decrypt leaves no output file and an existing one intact; with the last chunk of a two-chunk file corrupted the output holds exactly the first chunk and the exit status is 1; password mode round trip, rejection of a different password and of the password with a trailing space, tab or newline; change-pass keeps the public key, makes the old password fail, draws a new salt also when the new password equals the old one; two identical encrypt invocations differ in their ephemeral key"
+//@ native verif_oracle_cli_flows "bounded stand-in / witness finder (C01, C02, C05, C07, C08, C13, C16): the built kestrel binary on the shipped two-key keyring: encrypt for every (from, to) in {alice, bob}^2 (incl. to self) with a 10-byte and a 70000-byte input, file length = 132 + 32 per chunk + plaintext, decrypt as each key succeeds exactly for `to`, returns the input and names `from`, a failed decrypt leaves no output file and an existing one intact; with the last chunk of a two-chunk file corrupted the output holds exactly the first chunk and the exit status is 1; password mode round trip, rejection of a different password and of the password with a trailing space, tab or newline; extract-pub accepts the key's password and rejects it with a trailing newline / CR LF / space, a leading space, or one letter changed; change-pass (also to a password ending in a newline) keeps the public key, makes the old password fail, draws a new salt also when the new password equals the old one; two identical encrypt invocations differ in their ephemeral key"
 //@ native verif_oracle_argv_sweep "bounded stand-in / witness finder (C09, C13): the built kestrel binary (stdin closed, no controlling terminal, KESTREL_* unset, scratch working directory) on every argument vector of length <= 2 over 38 tokens (commands, options, aliases, paths of the shipped test keyring / data files, a missing path, an absent output path, empty and non-ASCII strings), every length-3 vector starting with a command word, and 7 complete command lines with each element in turn dropped, duplicated, or replaced by a missing path or one of 10 degenerate strings ('', '.', '..', '/', ...): exit status is 0 or 1, never a signal or panic text; status 1 carries an 'Error:' line; a failed run never leaves a file at the absent output path"
 // Native oracle on the REAL binary.  Never counted as proved; a disagreement is a concrete failing argument vector.
 use std::path::PathBuf;
@@ -194,7 +194,15 @@ fn verif_oracle_cli_flows() {
         let alice_pk = ring.lines().find(|l| l.starts_with("PublicKey")).unwrap().split_once('=').unwrap().1.trim().to_string();
         let salt_of = |k: &str| -> String { k.chars().skip(5).take(40).collect() };   // base64 chars covering bytes 4..34 (salt)
         let newkey = |o: &VRun| -> Option<String> { String::from_utf8_lossy(&o.out).lines().find(|l| l.starts_with("PrivateKey")).map(|l| l.split_once('=').unwrap().1.trim().to_string()) };
-        for newpw in ["alicenew", "alice"] {
+        // C15: the key unlocks under the password it was locked under and under no variant of it
+        for (w, ok) in [("alice", true), ("alice\n", false), ("alice\r\n", false), ("alice ", false), (" alice", false), ("alicf", false)] {
+            n += 1;
+            let e = verif_cmd(&dir, &["key", "extract-pub", &alice_sk, "--env-pass"], &[("KESTREL_PASSWORD", w)]);
+            if ok != (e.code == Some(0) && String::from_utf8_lossy(&e.out).contains(&alice_pk)) || (!ok && e.code != Some(1)) {
+                fail(&mut bad, &mut first, format!("extract-pub of alice's locked key under password {:?}: exit {:?} (expected {})", w, e.code, if ok { "the public key" } else { "rejection" }));
+            }
+        }
+        for newpw in ["alicenew", "alice", "alicenew\n"] {
             n += 1;
             let a = verif_cmd(&dir, &["key", "change-pass", &alice_sk, "--env-pass"], &[("KESTREL_PASSWORD", "alice"), ("KESTREL_NEW_PASSWORD", newpw)]);
             let b = verif_cmd(&dir, &["key", "change-pass", &alice_sk, "--env-pass"], &[("KESTREL_PASSWORD", "alice"), ("KESTREL_NEW_PASSWORD", newpw)]);
